@@ -10,7 +10,7 @@ From Verif Require Import Base C02 C17 C17_proofs.
 (* node -> face: for every leading index v and every face f, the result is the reduction over the
    data at exactly the corners of f (c17_ref agg d v r = agg (map (fun x => v[x]) (corners r))) *)
 Theorem C17_face : forall (A B : Type) (agg : list A -> B) (d : A) m t n_node (data : list (list A)),
-  std_table m t -> c17_nodes_ok t n_node -> Forall (fun v => length v = n_node) data ->
+  t <> [] -> std_table m t -> c17_nodes_ok t n_node -> Forall (fun v => length v = n_node) data ->
   exists res, c17_node_to_face agg t data = Some res /\
     Forall2 (fun v row => length row = length t /\
                forall f r, nth_error t f = Some r ->
@@ -20,7 +20,7 @@ Print Assumptions C17_face.
 
 (* ... whatever index vector np.argsort returns for equal sizes (NumPy's default sort is unstable) *)
 Theorem C17_argsort_free : forall (A B : Type) (agg : list A -> B) (d : A) m t S (data : list A),
-  std_table m t -> c17_nodes_ok t (length data) ->
+  t <> [] -> std_table m t -> c17_nodes_ok t (length data) ->
   c17_is_argsort (n_nodes_per_face t) S ->
   c17_face_row_with agg S t data = c17_face_row agg t data.
 Proof. exact @c17_argsort_free. Qed.
@@ -72,28 +72,26 @@ Theorem C17_dims : forall lead shape_lead s dst n,
 Proof. exact c17_dims_last. Qed.
 Print Assumptions C17_dims.
 
-(* errors: the kernels run only for node-centred data with destination face or edge ... *)
+(* errors: the kernels run only for node-centred data whose LAST dimension is n_node, with
+   destination face or edge ... (so C17_dims applies to every result) *)
 Theorem C17_errors_run : forall dims dest k,
   c17_dispatch dims dest = C17_run k <->
-  In C17_n_node dims /\ dest = Some k /\ (k = C17_to_face \/ k = C17_to_edge).
+  (exists lead, dims = lead ++ [C17_n_node]) /\ dest = Some k /\ (k = C17_to_face \/ k = C17_to_edge).
 Proof. exact c17_dispatch_run. Qed.
 Print Assumptions C17_errors_run.
 
 (* ... every other source/destination combination raises *)
 Theorem C17_errors_raise : forall dims dest,
-  (~ In C17_n_node dims \/ dest = None \/ dest = Some C17_to_node \/ dest = Some C17_to_bad) ->
+  (~ In C17_n_node dims \/ last dims C17_n_node <> C17_n_node \/
+   dest = None \/ dest = Some C17_to_node \/ dest = Some C17_to_bad) ->
   c17_dispatch dims dest = C17_ValueError \/ c17_dispatch dims dest = C17_NotImplemented.
 Proof. exact c17_dispatch_raises. Qed.
 Print Assumptions C17_errors_raise.
 
-(* faithful model, node dimension NOT last (dims (n_node, t), shape (8, 8), 4 faces): the kernel
-   returns numbers and labels a length-8 axis 'n_face' — reproduced on the real code by the
-   harness (known finding C17-node-dim-not-last) *)
-Theorem C17_dims_notlast_refuted :
-  exists dims shape n_face (t : table) (data : list (list Z)),
-    c17_dispatch dims (Some C17_to_face) = C17_run C17_to_face /\
-    n_face = Z.of_nat (length t) /\ std_table 5 t /\
-    (exists res, c17_node_to_face (fun l => fold_left Z.add l 0) t data = Some res) /\
-    c17_dim_size (c17_result_dims dims C17_to_face) (c17_result_shape shape n_face) C17_n_face <> Some n_face.
-Proof. exact c17_dims_notlast_refuted. Qed.
-Print Assumptions C17_dims_notlast_refuted.
+(* node dimension not last: ValueError, whatever the destination (was C17_dims_notlast_refuted
+   before fix bf5e89dd: the kernel returned numbers under a mislabelled dimension) *)
+Theorem C17_notlast_raises : forall dims dest,
+  In C17_n_node dims -> last dims C17_n_node <> C17_n_node ->
+  c17_dispatch dims dest = C17_ValueError.
+Proof. exact c17_notlast_raises. Qed.
+Print Assumptions C17_notlast_raises.
